@@ -47,6 +47,11 @@ def windows(c, n, fs, rng, df=None, r=None):
         i1 = min(len(df) - 1, i0 + rng.choice([0, 1, 3]))
         yield (int(L[i0]), min(n - 1, int(N[i1]) + rng.choice([1, 5])))
         yield (int(L[i0]), int(N[i1]))
+        # a window closing exactly on the closing sample of a NON-bursting cycle (threshold spans are drawn for those)
+        quiet = [i for i in range(2, len(df)) if not bool(df['is_burst'].values[i])]
+        if quiet:
+            iq = rng.choice(quiet)
+            yield (int(L[max(iq - 2, 0)]) + 1, int(N[iq]))
     for _ in range(c['nwin']):
         a = rng.choice(low) if low and rng.random() < 0.5 else rng.randrange(0, n - 2)
         width = rng.choice([3, 40, 200, 600])
